@@ -50,56 +50,62 @@ def param_fn(e):
     return fn
 
 
-def space_of(var, dim):
+SPLIT_SUFFIX = ["", "_b", "_c"]
+
+
+def space_of(var, dim, split=False):
+    """split: the same space as a product of ONE-dimensional variables (var, var_b, var_c)"""
+    if split and dim > 1:
+        return Space({var + SPLIT_SUFFIX[i]: 1 for i in range(dim)})
     return Space({var: dim})
 
 
-def build_tp(a):
+def build_tp(a, split=False):
     k = a["k"]
     if k == "interval":
-        return tp.domains.Interval(space_of(a["var"], 1), param_fn(a["a"]), param_fn(a["b"]))
+        return tp.domains.Interval(space_of(a["var"], 1, split), param_fn(a["a"]), param_fn(a["b"]))
     if k == "circle":
-        return tp.domains.Circle(space_of(a["var"], 2), param_fn(a["c"]), param_fn(a["r"]))
+        return tp.domains.Circle(space_of(a["var"], 2, split), param_fn(a["c"]), param_fn(a["r"]))
     if k == "sphere":
-        return tp.domains.Sphere(space_of(a["var"], 3), param_fn(a["c"]), param_fn(a["r"]))
+        return tp.domains.Sphere(space_of(a["var"], 3, split), param_fn(a["c"]), param_fn(a["r"]))
     if k == "para":
-        return tp.domains.Parallelogram(space_of(a["var"], 2), param_fn(a["o"]), param_fn(a["c1"]), param_fn(a["c2"]))
+        return tp.domains.Parallelogram(space_of(a["var"], 2, split), param_fn(a["o"]), param_fn(a["c1"]), param_fn(a["c2"]))
     if k == "tri":
-        return tp.domains.Triangle(space_of(a["var"], 2), param_fn(a["o"]), param_fn(a["c1"]), param_fn(a["c2"]))
+        return tp.domains.Triangle(space_of(a["var"], 2, split), param_fn(a["o"]), param_fn(a["c1"]), param_fn(a["c2"]))
     if k == "poly":
         import shapely.geometry as sg
         if a["holes"]:
-            return ShapelyPolygon(space_of(a["var"], 2), shapely_polygon=sg.Polygon(a["verts"], a["holes"]))
-        return ShapelyPolygon(space_of(a["var"], 2), vertices=a["verts"])
+            return ShapelyPolygon(space_of(a["var"], 2, split), shapely_polygon=sg.Polygon(a["verts"], a["holes"]))
+        return ShapelyPolygon(space_of(a["var"], 2, split), vertices=a["verts"])
     if k == "mesh":
         from . import poly3d
         assert a["var"] == "x"
-        return poly3d.build(a["shape"], a["winding"], a["source"])
+        return poly3d.build(a["shape"], a["winding"], a["source"], space=space_of("x", 3, split))
     if k == "point":
         p = a["p"]
         dim = len(p) if isinstance(p, list) and not G.is_aff(p) else 1
-        return tp.domains.Point(space_of(a["var"], dim), param_fn(p))
+        return tp.domains.Point(space_of(a["var"], dim, split), param_fn(p))
     if k == "union":
-        A, Bd = build_tp(a["a"]), build_tp(a["b"])
+        A, Bd = build_tp(a["a"], split), build_tp(a["b"], split)
         return UnionDomain(A, Bd, disjoint=True) if a["disjoint"] else A + Bd
     if k == "cut":
-        A, Bd = build_tp(a["a"]), build_tp(a["b"])
+        A, Bd = build_tp(a["a"], split), build_tp(a["b"], split)
         return CutDomain(A, Bd, contained=True) if a["contained"] else A - Bd
     if k == "inter":
-        return build_tp(a["a"]) & build_tp(a["b"])
+        return build_tp(a["a"], split) & build_tp(a["b"], split)
     if k == "prod":
-        return build_tp(a["a"]) * build_tp(a["b"])
+        return build_tp(a["a"], split) * build_tp(a["b"], split)
     if k == "translate":
-        return Translate(build_tp(a["a"]), param_fn(a["v"]))
+        return Translate(build_tp(a["a"], split), param_fn(a["v"]))
     if k == "rotate":
         around = None if a["around"] is None else param_fn(a["around"])
-        return Rotate.from_angles(build_tp(a["a"]), param_fn(a["angle"]), rotate_around=around)
+        return Rotate.from_angles(build_tp(a["a"], split), param_fn(a["angle"]), rotate_around=around)
     if k == "boundary":
-        return build_tp(a["a"]).boundary
+        return build_tp(a["a"], split).boundary
     if k == "bleft":
-        return build_tp(a["a"]).boundary_left
+        return build_tp(a["a"], split).boundary_left
     if k == "bright":
-        return build_tp(a["a"]).boundary_right
+        return build_tp(a["a"], split).boundary_right
     raise ValueError(k)
 
 
